@@ -6,10 +6,12 @@ patch="$out/patch_$i.diff"; demo="$out/demo_$i.py"; meta="$out/meta_$i.json"
 wt=$(mktemp -d /tmp/seedwt-XXXX); rmdir "$wt"
 git -C /repo worktree add -q --detach "$wt" HEAD || exit 3
 log=""
-( cd "$wt" && PYTHONPATH="$wt" TMPDIR=$(mktemp -d) /venv/bin/python "$demo" >/dev/null 2>&1 ); clean_rc=$?
+dtmp=$(mktemp -d /tmp/seedtmp-XXXX)
+( cd "$wt" && PYTHONPATH="$wt" TMPDIR="$dtmp" /venv/bin/python "$demo" >/dev/null 2>&1 ); clean_rc=$?
 ( cd "$wt" && git apply "$patch" ) || { echo "patch does not apply"; git -C /repo worktree remove --force "$wt"; exit 3; }
 tests=$(cd "$wt" && /venv/bin/python -m pytest -q -p no:cacheprovider 2>&1 | tail -1)
-( cd "$wt" && PYTHONPATH="$wt" TMPDIR=$(mktemp -d) /venv/bin/python "$demo" >/dev/null 2>&1 ); mut_rc=$?
+( cd "$wt" && PYTHONPATH="$wt" TMPDIR="$dtmp" /venv/bin/python "$demo" >/dev/null 2>&1 ); mut_rc=$?
+rm -rf "$dtmp"
 git -C /repo worktree remove --force "$wt"
 echo "confirm: demo clean rc=$clean_rc, with change rc=$mut_rc, tests: $tests"
 mkdir -p "$ROOT/seeded/$name"
